@@ -9,7 +9,7 @@ use crate::rng::{fnv_u64, run_seed, Rng};
 use crate::runner::{guarded, on, PanicVerdict, Side};
 use crate::scenario::{Op, Scenario, Violation};
 use crate::stats::{phase, Stats};
-use crate::sut::{build_spec, item_bits, item_roundtrip, make_item, Input, Kind, Mode, NodeSpec, Out, Params, Sut, ALL_KINDS};
+use crate::sut::{build_ref, build_spec, item_bits, item_roundtrip, make_item, Input, Kind, Mode, NodeSpec, Out, Params, Sut, ALL_KINDS};
 use crate::world::{self, corrupt, Fault, FaultPlan, World, ALL_FEED_FAULTS, VALUE_FAULTS};
 use serde_json::json;
 use std::time::{Duration, Instant};
@@ -25,6 +25,34 @@ fn viol(class: &str, kind: Kind, step: usize, detail: String, expected: Vec<Stri
         expected,
         got,
         oracle: "the never-serialized in-memory instance (shadow) that lived through the same feed and resets".into(),
+    }
+}
+
+/// How the bytes come back (chosen by the position of the op, so a scenario replays exactly): 0 = from the slice,
+/// 1 = through an `io::Read`, 2 = `deserialize_in_place` over a clone of the live instance (a roll-back),
+/// 3 = `deserialize_in_place` over a recycled instance of the same type that had larger windows and was used.
+fn restore(node: &dyn Sut, spec: &NodeSpec, bytes: &[u8], how: usize, st: &mut Stats) -> Result<Box<dyn Sut>, String> {
+    let k = spec.kind;
+    match how % 4 {
+        0 => node.load(bytes),
+        1 => node.load_reader(bytes),
+        3 if spec.params.sum_periods(k) <= 4096 => {
+            st.bump("restores_in_place_over_recycled_larger_instance");
+            let p = &spec.params;
+            let big = NodeSpec { kind: k, params: Params::new(p.p1 * 2 + 3, p.p2 * 2 + 3, p.p3 * 2 + 3, p.mult.0), mode: spec.mode, dflt: false };
+            let mut t = build_ref(&big);
+            for j in 0..big.params.sum_periods(k) + 5 {
+                t.feed(spec.mode, &Input::scalar(1e6 * (1 + (j * 7) % 11) as f64));
+            }
+            t.load_in_place(bytes)?;
+            Ok(t)
+        }
+        _ => {
+            st.bump("restores_in_place_rollback");
+            let mut t = node.fork();
+            t.load_in_place(bytes)?;
+            Ok(t)
+        }
     }
 }
 
@@ -146,8 +174,8 @@ pub fn exec(sc: &Scenario, st: &mut Stats) -> Option<Violation> {
                 // the in-memory node is gone; only durable state survives
                 let (mut fresh, offset, info) = match disk.last() {
                     Some(g) => {
-                        // odd steps restore through an io::Read, even ones from the byte slice
-                        let r = match on(Side::Subject, || if i % 2 == 1 { node.load_reader(&g.bytes) } else { node.load(&g.bytes) }) {
+                        // the way back rotates with the step: slice, io::Read, in place over the live state, in place over a recycled instance
+                        let r = match on(Side::Subject, || restore(node.as_ref(), &spec, &g.bytes, i, st)) {
                             Ok(r) => r,
                             Err(e) => return Some(viol("serde-error", kind, i, format!("deserialize of bytes we wrote failed: {}", e), vec![], vec![e])),
                         };
@@ -166,7 +194,7 @@ pub fn exec(sc: &Scenario, st: &mut Stats) -> Option<Violation> {
                         recrashed = true;
                         st.fault(Fault::CrashDuringReplay);
                         let g = disk.last().unwrap();
-                        fresh = match on(Side::Subject, || if i % 2 == 0 { node.load_reader(&g.bytes) } else { node.load(&g.bytes) }) {
+                        fresh = match on(Side::Subject, || restore(node.as_ref(), &spec, &g.bytes, i + 1, st)) {
                             Ok(r) => r,
                             Err(e) => return Some(viol("serde-error", kind, i, format!("deserialize failed: {}", e), vec![], vec![e])),
                         };
@@ -248,7 +276,7 @@ pub fn exec(sc: &Scenario, st: &mut Stats) -> Option<Violation> {
                         Ok(b) => b,
                         Err(e) => return Some(viol("serde-error", kind, i, format!("serialize failed: {}", e), vec![], vec![e])),
                     };
-                    node = match on(Side::Subject, || if (i + done_rt) % 2 == 1 { node.load_reader(&bytes) } else { node.load(&bytes) }) {
+                    node = match on(Side::Subject, || restore(node.as_ref(), &spec, &bytes, i + done_rt, st)) {
                         Ok(r) => r,
                         Err(e) => return Some(viol("serde-error", kind, i, format!("deserialize of bytes we wrote failed: {}", e), vec![], vec![e])),
                     };
